@@ -48,10 +48,12 @@ type Case struct {
 	CT      string `json:"ct"` // response Content-Type
 	// DeclCT: the key under which the content is declared ("" = application/json); AltCT adds a second
 	// entry "application/json" whose schema nothing satisfies, so a wrong selection is visible
-	DeclCT  string `json:"decl_ct,omitempty"`
-	AltCT   bool   `json:"alt_ct,omitempty"`
-	Opts    int    `json:"opts"`               // 1 IncludeResponseStatus, 2 ExcludeResponseBody, 4 ExcludeWriteOnlyValidations, 8 MultiError
-	PreOpts int    `json:"pre_opts,omitempty"` // > 0: option bits of a response validated first against the same document
+	DeclCT string `json:"decl_ct,omitempty"`
+	AltCT  bool   `json:"alt_ct,omitempty"`
+	// PdfCT: the content also declares application/pdf without a schema (a body of that type is not checked)
+	PdfCT   bool `json:"pdf_ct,omitempty"`
+	Opts    int  `json:"opts"`               // 1 IncludeResponseStatus, 2 ExcludeResponseBody, 4 ExcludeWriteOnlyValidations, 8 MultiError
+	PreOpts int  `json:"pre_opts,omitempty"` // > 0: option bits of a response validated first against the same document
 }
 
 func TestMain(m *testing.M) { h.Main(m, "C08") }
@@ -244,6 +246,9 @@ func declaredContent(c Case, schema M) M {
 	if c.AltCT && declKey(c) != "application/json" {
 		ct["application/json"] = M{"schema": M{"not": M{}}}
 	}
+	if c.PdfCT {
+		ct["application/pdf"] = M{}
+	}
 	return ct
 }
 
@@ -336,6 +341,9 @@ func model(c Case, schema M, hv any) (bool, string, bool) {
 	selCT := selectContent(declaredContent(c, schema), c.CT)
 	if selCT == "" {
 		return false, "undeclared-content-type", false
+	}
+	if selCT == "application/pdf" {
+		return true, "media-type-without-schema", false
 	}
 	base := c.CT
 	if i := strings.IndexByte(base, ';'); i >= 0 {
@@ -539,6 +547,12 @@ func gen(t *rapid.T) Case {
 			c.Schema, c.Body = jv.Canon(s), jv.Canon(v)
 		}
 		c.CT = rapid.SampledFrom([]string{"application/json", "application/json", "application/json; charset=utf-8", "text/plain", "", "application/xml", "application/json; version=2", "application/json;version=2"}).Draw(t, "ct")
+		if rapid.IntRange(0, 3).Draw(t, "pdfct") == 0 {
+			c.PdfCT = true
+			if rapid.Bool().Draw(t, "sendpdf") {
+				c.CT = "application/pdf"
+			}
+		}
 		if rapid.IntRange(0, 2).Draw(t, "declct") == 0 {
 			c.DeclCT = rapid.SampledFrom([]string{"application/json; version=2", "application/json; charset=utf-8", "application/*", "*/*"}).Draw(t, "declctkey")
 			c.AltCT = rapid.Bool().Draw(t, "altct")
